@@ -2001,3 +2001,67 @@ def free_after_transfer(prog, rule):
                                "path): the field dangles and the block is released again when the owner is torn down"
                                % (rp, lp, x.get("l"), bad.get("l"), root))
     return n
+
+
+def destination_cleaned_before_source_read(prog, rule, units=("value.c", "map.c", "packet.c")):
+    """A function that copies one value object onto an existing one must not clean the destination before it has finished
+    reading the source: the documented setters copy a new value *onto* an existing member, and the new value may be a
+    member of the very object being overwritten (cif_value_set_element_at(list, i, member of list[i])); cleaning first
+    releases the source.  It also empties the destination when the copy then fails.
+    Instances: (function, destination parameter, source parameter) with a cif_value_clean of an object rooted at the
+    destination parameter; verdict: no read of the source parameter is reachable after the clean."""
+    n = 0
+    readers = ("cif_u_strdup", "strdup", "u_strcpy", "cif_value_clone", "cif_value_clone_list", "cif_value_clone_table",
+               "cif_value_clone_numb", "memcpy")
+    for fn in prog.all_functions():
+        if fn.unit not in units:
+            continue
+        pnames0 = [p["name"] for p in fn.params if "cif_value_tp" in p.get("t", "") or "value_s" in p.get("t", "")]
+        if len(pnames0) < 2:
+            continue
+        for (b, i, r, c) in fn.calls_to("cif_value_clean"):
+            pnames = list(pnames0)
+            if not c.get("args"):
+                continue
+            m = re.match(r"[\(\)\*& ]*(\w+)", show(c["args"][0]))
+            dst = m.group(1) if m else None
+            if dst is not None and dst not in pnames:
+                # a local standing for the destination parameter (`target = *clone`)
+                from .writerrules import _defs_of
+                roots = set()
+                for d0 in _defs_of(fn, dst):
+                    for x in walk(d0):
+                        if isinstance(x, dict) and x.get("k") == "ref" and x.get("name") in [p_["name"] for p_ in fn.params]:
+                            roots.add(x["name"])
+                if len(roots) == 1:
+                    dst = next(iter(roots))
+                    if dst not in pnames:
+                        pnames = pnames + [dst]
+            if dst not in pnames:
+                continue
+            after = cfgq.reach(fn, [b.id])
+            for src in pnames:
+                if src == dst:
+                    continue
+                n += 1
+                key = "%s:clean(%s)@L%s vs %s" % (fn.name, dst, c.get("l"), src)
+                late = None
+                for (b2, i2, r2, x) in fn.eval_sites():
+                    later = (b2.id in after and b2.id != b.id) or (b2.id == b.id and i2 > i)
+                    if not later:
+                        continue
+                    if x.get("k") == "member" and (path(x) or "").startswith(src + "->"):
+                        late = x
+                        break
+                    if x.get("k") == "call" and x.get("callee") in readers and any(
+                            (path(strip(a)) or "").split("->")[0].lstrip("&(*") == src for a in x.get("args", [])):
+                        late = x
+                        break
+                if late is None:
+                    rule.ok(key, "the source is not read after the destination was cleaned")
+                else:
+                    rule.violation(fn.file, fn.name, c.get("l"), "destination-cleaned-before-source-read:%s" % fn.name,
+                                   "`%s` is cleaned at L%s and `%s` is still read afterwards (L%s): when the source is a member of the "
+                                   "destination - a list element replaced by one of its own members - it has been released by then, and "
+                                   "a failing copy leaves the destination emptied" % (dst, c.get("l"), src, late.get("l")))
+    return n
